@@ -43,6 +43,9 @@ pub struct Batch {
 pub struct Chain {
     pub lane: u8,
     pub ops: Vec<OpG>,
+    /// the entries are linked with IOSQE_IO_HARDLINK instead of IOSQE_IO_LINK
+    #[serde(default)]
+    pub hard: bool,
 }
 
 #[derive(Debug, Clone, Serialize, Deserialize)]
@@ -268,6 +271,7 @@ pub struct Entry {
     pub lane: usize,
     pub pos: usize,
     pub last: bool,
+    pub hard: bool,
     pub op: Op,
     pub a: bool,
     pub fdsel: Option<FdSel>,
@@ -501,6 +505,7 @@ pub struct Stats {
     pub multi_kind_batch: bool,
     pub link_chain: bool,
     pub cancelled: bool,
+    pub hard_chain_survived_failure: bool,
     pub continued_after_failure: bool,
     pub failing: bool,
     pub short_rw: bool,
@@ -600,11 +605,11 @@ impl Engine {
     /// Normalise a generated batch: one chain per lane, total within the ring, arguments that
     /// fail before issue (and so take down a whole chain in a kernel-version dependent way)
     /// only in single-entry chains, kinds with unknown link rule only at a chain end.
-    pub fn normalise(&self, batch: &Batch) -> Vec<(usize, Vec<OpG>)> {
+    pub fn normalise(&self, batch: &Batch) -> Vec<(usize, Vec<OpG>, bool)> {
         let cap = self.s.sq_entries as usize;
         let pr = ring::probe();
         let mut used = [false; NL];
-        let mut out: Vec<(usize, Vec<OpG>)> = Vec::new();
+        let mut out: Vec<(usize, Vec<OpG>, bool)> = Vec::new();
         let mut total = 0usize;
         for ch in &batch.chains {
             if total >= cap {
@@ -644,7 +649,7 @@ impl Engine {
                     if let Op::Timeout { count, .. } = &mut g.op {
                         *count = 0;
                     }
-                    if rule_for(g.op.kind()) == LinkRule::Unknown {
+                    if rule_for(g.op.kind(), ch.hard) == LinkRule::Unknown {
                         cut = cut.min(i + 1);
                     }
                 }
@@ -652,7 +657,7 @@ impl Engine {
             ops.truncate(cut);
             used[lane] = true;
             total += ops.len();
-            out.push((lane, ops));
+            out.push((lane, ops, ch.hard));
         }
         out
     }
@@ -867,7 +872,7 @@ impl Engine {
         let lane = e.lane;
         let mut fl = IoUringSQEFlags::empty();
         if !e.last {
-            fl |= IoUringSQEFlags::IOSQE_IO_LINK;
+            fl |= if e.hard { IoUringSQEFlags::IOSQE_IO_HARDLINK } else { IoUringSQEFlags::IOSQE_IO_LINK };
         }
         if e.a {
             fl |= IoUringSQEFlags::IOSQE_ASYNC;
@@ -955,7 +960,7 @@ impl Engine {
         let mut entries: Vec<Entry> = Vec::new();
         let mut new_b: Vec<(usize, i32)> = Vec::new();
         // ---- world B, sequentially per chain
-        for (lane, ops) in &chains {
+        for (lane, ops, hard) in &chains {
             let mut severed = false;
             let n = ops.len();
             for (pos, g) in ops.iter().enumerate() {
@@ -1011,11 +1016,14 @@ impl Engine {
                         if k == "short-rw" {
                             self.stats.short_rw = true;
                         }
-                        match rule_for(k) {
+                        match rule_for(k, *hard) {
                             LinkRule::Breaks => severed = true,
                             LinkRule::Continues => {
                                 if pos + 1 < n {
                                     self.stats.continued_after_failure = true;
+                                    if *hard {
+                                        self.stats.hard_chain_survived_failure = true;
+                                    }
                                 }
                             }
                             LinkRule::Unknown => {}
@@ -1027,7 +1035,7 @@ impl Engine {
                     self.stats.cancelled = true;
                 }
                 let mem_a = self.build_mem(&self.a, *lane, &op, true);
-                entries.push(Entry { lane: *lane, pos, last: pos + 1 == n, op, a: g.a, fdsel, exp, mem_a, mem_b, ud });
+                entries.push(Entry { lane: *lane, pos, last: pos + 1 == n, hard: *hard, op, a: g.a, fdsel, exp, mem_a, mem_b, ud });
             }
         }
         // ---- statistics
@@ -1041,7 +1049,7 @@ impl Engine {
             if kinds.len() >= 2 {
                 self.stats.multi_kind_batch = true;
             }
-            if chains.iter().any(|(_, o)| o.len() >= 2) {
+            if chains.iter().any(|(_, o, _)| o.len() >= 2) {
                 self.stats.link_chain = true;
             }
             if chains.len() >= 2 {
@@ -1298,19 +1306,20 @@ pub fn fix_range(off: u8, len: u16) -> (usize, usize) {
 }
 
 /// Link rule of a failure class, combining the probed kinds that share a completion path.
-pub fn rule_for(kind: &str) -> LinkRule {
+pub fn rule_for(kind: &str, hard: bool) -> LinkRule {
     let p = ring::probe();
+    let rule = |k: &str| if hard { p.hard_rule(k) } else { p.rule(k) };
     match kind {
         "read_fixed" | "write_fixed" => {
-            let a = p.rule(kind);
-            let b = p.rule(if kind == "read_fixed" { "readv" } else { "writev" });
+            let a = rule(kind);
+            let b = rule(if kind == "read_fixed" { "readv" } else { "writev" });
             if a == b {
                 a
             } else {
                 LinkRule::Unknown
             }
         }
-        k => p.rule(k),
+        k => rule(k),
     }
 }
 
@@ -1427,12 +1436,12 @@ pub fn op_strategy() -> impl Strategy<Value = Op> {
 
 pub fn batch_strategy() -> impl Strategy<Value = Batch> {
     let opg = (op_strategy(), prop::bool::weighted(0.15)).prop_map(|(op, a)| OpG { op, a });
-    let chain = (0u8..NL as u8, prop::collection::vec(opg, 1..=8)).prop_map(|(lane, mut ops)| {
+    let chain = (0u8..NL as u8, prop::collection::vec(opg, 1..=8), prop::bool::weighted(0.3)).prop_map(|(lane, mut ops, hard)| {
         // short chains are the common case, long ones regular
         if lane % 3 == 0 && ops.len() > 2 {
             ops.truncate(2);
         }
-        Chain { lane, ops }
+        Chain { lane, ops, hard }
     });
     prop::collection::vec(chain, 1..=NL).prop_map(|chains| Batch { chains })
 }
@@ -1489,6 +1498,7 @@ pub fn run_case(ctx: &Ctx, case: &FsCase) -> CaseResult {
     }
     rep.class_if(st.link_chain, "link-chain");
     rep.class_if(st.cancelled, "chain-entries-cancelled");
+    rep.class_if(st.hard_chain_survived_failure, "hard-linked-chain-went-on-after-a-failed-entry");
     rep.class_if(st.continued_after_failure, "chain-continued-after-failure");
     rep.class_if(st.failing, "failing-entry");
     rep.class_if(st.short_rw, "short-transfer");
